@@ -66,17 +66,18 @@ type c03Call struct {
 }
 
 type c03Job struct {
-	ID     int               `json:"id"`
-	Entry  string            `json:"entry"` // eval | load
-	Class  string            `json:"class"`
-	Src    string            `json:"src,omitempty"`
-	Fname  string            `json:"fname,omitempty"`
-	Files  map[string]string `json:"files,omitempty"`
-	NilFS  bool              `json:"nilfs,omitempty"`
-	Arg    string            `json:"arg,omitempty"`
-	Opts   int               `json:"opts"`              // bit 0 WithTreeDump, bit 1 WithCodeDump, bit 2 WithEvalImports
-	SlowMS int               `json:"slow_ms,omitempty"` // watchdog override for the confirmation run of a front-end timeout
-	Calls  []c03Call         `json:"calls,omitempty"`
+	ID            int               `json:"id"`
+	Entry         string            `json:"entry"` // eval | load
+	Class         string            `json:"class"`
+	Src           string            `json:"src,omitempty"`
+	Fname         string            `json:"fname,omitempty"`
+	Files         map[string]string `json:"files,omitempty"`
+	NilFS         bool              `json:"nilfs,omitempty"`
+	Arg           string            `json:"arg,omitempty"`
+	Opts          int               `json:"opts"`                     // bit 0 WithTreeDump, bit 1 WithCodeDump, bit 2 WithEvalImports
+	MustTerminate bool              `json:"must_terminate,omitempty"` // the script terminates by construction: a timeout is "wedged", not excepted
+	SlowMS        int               `json:"slow_ms,omitempty"`        // watchdog override for the confirmation run of a front-end timeout
+	Calls         []c03Call         `json:"calls,omitempty"`
 }
 
 type c03Obs struct {
@@ -95,6 +96,7 @@ type c03Result struct {
 	Main   c03Obs   `json:"main"`
 	Calls  []c03Obs `json:"calls,omitempty"`
 	Leaked bool     `json:"leaked,omitempty"` // a goroutine was abandoned: the child must exit
+	Must   bool     `json:"must_terminate,omitempty"`
 	MS     int      `json:"ms"`
 }
 
@@ -249,11 +251,16 @@ func c03FS(j *c03Job) fs.FS {
 }
 
 // a fresh VM whose host-affecting natives are neutralised (the fuzzer must not write files or sleep)
-func c03VM(out io.Writer) *g.VM {
+func c03VM(out io.Writer) *g.VM { return c03VMSleep(out, false) }
+
+// realSleep: keep goatlang's own time.Sleep (it yields back into the VM); only for scripts that sleep nanoseconds
+func c03VMSleep(out io.Writer, realSleep bool) *g.VM {
 	vm := g.New(g.WithStdout(out))
 	vm.Set("os.WriteFile", g.NewFunc(3, 1, func(vm *g.VM, args []g.Value) g.Value { return g.Nil() }))
 	vm.Set("os.ReadFile", g.NewFunc(1, 2, func(vm *g.VM, args []g.Value) []g.Value { return []g.Value{g.Nil(), g.Nil()} }))
-	vm.Set("time.Sleep", g.NewFunc(1, 0, func(vm *g.VM, args []g.Value) {}))
+	if !realSleep {
+		vm.Set("time.Sleep", g.NewFunc(1, 0, func(vm *g.VM, args []g.Value) {}))
+	}
 	return vm
 }
 
@@ -275,6 +282,22 @@ func c03Value(vm *g.VM, a c03Arg) g.Value {
 		return g.NewFunc(1, 1, func(vm *g.VM, args []g.Value) g.Value { return args[0] })
 	case "nativepanic":
 		return g.NewFunc(0, 0, func(vm *g.VM, args []g.Value) { panic("native panic") })
+	case "intslice": // I elements in descending order
+		var vs []g.Value
+		for k := a.I; k > 0; k-- {
+			vs = append(vs, g.Int(k))
+		}
+		return g.NewSlice(g.TypeInt32, vs)
+	case "nativecb":
+		// a host native that calls back into the VM it was registered on (what slices.SortFunc does with its comparator)
+		outer, name := vm, a.S
+		return g.NewFunc(0, 1, func(_ *g.VM, args []g.Value) g.Value {
+			rets, err := outer.Call(name, 1, g.Int(2), g.Int(1))
+			if err != nil {
+				panic(err)
+			}
+			return rets[0]
+		})
 	}
 	return g.Nil()
 }
@@ -298,6 +321,7 @@ func c03Options(j *c03Job, tree, code io.Writer) []g.RunOption {
 func c03RunJob(j *c03Job) (res c03Result) {
 	t0 := time.Now()
 	res.ID = j.ID
+	res.Must = j.MustTerminate
 	c03Watchdog = c03Timeout
 	if j.SlowMS > 0 {
 		c03Watchdog = time.Duration(j.SlowMS) * time.Millisecond
@@ -357,7 +381,7 @@ func c03RunJob(j *c03Job) (res c03Result) {
 
 	var out capWriter
 	var tree, code capWriter
-	vm := c03VM(&out)
+	vm := c03VMSleep(&out, j.MustTerminate)
 	fsys := c03FS(j)
 	opts := c03Options(j, &tree, &code)
 	var leaked bool
@@ -669,6 +693,9 @@ func c03GenJob(r *rng, c *c03Corpus, id int) c03Job {
 		j.Fname, j.Files = "eval", c03EvalFS()
 		return j
 	}
+	if r.intn(100) < 6 {
+		return c03TermJob(r, id, j.Opts)
+	}
 	if r.intn(100) < 7 {
 		// terminating scripts that build cyclic data and render it through some route
 		if r.chance(70) {
@@ -733,7 +760,8 @@ type c03Failing struct {
 	NilFS   bool              `json:"nil_fs,omitempty"`
 	Arg     string            `json:"arg,omitempty"`
 	Call    *c03Call          `json:"call,omitempty"`
-	JobGz   string            `json:"job_gz,omitempty"` // the exact job (gzip+base64 of its JSON) for c03-replay
+	CallSeq []c03Call         `json:"call_sequence,omitempty"` // for kind wedged: the host calls made after the entry point, in order
+	JobGz   string            `json:"job_gz,omitempty"`        // the exact job (gzip+base64 of its JSON) for c03-replay
 	Shrunk  bool              `json:"minimised"`
 	OrigLen int               `json:"original_size"`
 	Detail  string            `json:"detail,omitempty"`
@@ -764,9 +792,15 @@ func c03Sigs(r *c03Result) []c03Sig {
 	if r.Main.NoPfx {
 		out = append(out, c03Sig{"noprefix", "main", firstWord(r.Main.Err), "", -1})
 	}
+	if r.Must && r.Main.Outcome == "timeout" {
+		out = append(out, c03Sig{"wedged", "main", "", "", -1})
+	}
 	for i, c := range r.Calls {
 		if c.Outcome == "escape" {
 			out = append(out, c03Sig{"escape", "call", c.Where, c.Site, i})
+		}
+		if r.Must && c.Outcome == "timeout" {
+			out = append(out, c03Sig{"wedged", "call", "", "", i})
 		}
 	}
 	return out
@@ -838,6 +872,15 @@ func c03MakeFailing(j *c03Job, r *c03Result, s c03Sig, shrunk bool, orig int) c0
 			if p.Stage == f.Stage {
 				f.Panic, f.Where = p.Panic, p.Where
 			}
+		}
+	case s.Kind == "wedged":
+		f.Stage = "run"
+		f.Panic = "did not return within the watchdog although the script terminates by construction (no panic, no error: the host is wedged)"
+		f.CallSeq = j.Calls
+		if s.Entry == "call" && s.CallIdx < len(j.Calls) {
+			cc := j.Calls[s.CallIdx]
+			f.Call = &cc
+			f.Entry = map[string]string{"call": "Call", "func": "Func"}[cc.Kind] + " after " + entry
 		}
 	case s.Entry == "main":
 		f.Stage, f.Panic, f.Where, f.Err = r.Main.Stage, r.Main.Panic, r.Main.Where, r.Main.Err
@@ -1124,12 +1167,19 @@ func cmdC03Shrink(a cmdArgs) {
 
 // c03ShrinkDeath minimises a job that KILLS the child (fatal error): every candidate runs in a child of its own.
 func c03ShrinkDeath(tmp string, idx int, j c03Job, where string, deadline time.Time) c03Job {
-	n := 0
-	dies := func(c *c03Job) bool {
-		n++
+	return c03ShrinkBy(tmp, idx, j, func(c *c03Job, n int) bool {
 		c.ID = 0
 		_, ds := c03RunBatch(tmp, fmt.Sprintf("sd%d_%d", idx, n), []c03Job{*c})
 		return len(ds) > 0 && ds[0].Where == where
+	}, deadline)
+}
+
+// c03ShrinkBy minimises a job under a predicate that needs a child process per candidate (a dying or a wedged child)
+func c03ShrinkBy(tmp string, idx int, j c03Job, bad func(c *c03Job, n int) bool, deadline time.Time) c03Job {
+	n := 0
+	dies := func(c *c03Job) bool {
+		n++
+		return bad(c, n)
 	}
 	if !dies(&j) {
 		return j
@@ -1143,6 +1193,28 @@ func c03ShrinkDeath(tmp string, idx int, j c03Job, where string, deadline time.T
 		c := j
 		c.Calls = nil
 		try(c)
+	}
+	if len(j.Calls) > 1 {
+		// the shortest call sequence that still fails
+		idxs := make([]string, len(j.Calls))
+		for k := range idxs {
+			idxs[k] = strconv.Itoa(k)
+		}
+		calls := j.Calls
+		keep := c03DD(idxs, func(p []string) bool {
+			c := j
+			c.Calls = nil
+			for _, ks := range p {
+				k, _ := strconv.Atoi(ks)
+				c.Calls = append(c.Calls, calls[k])
+			}
+			return dies(&c)
+		}, deadline)
+		j.Calls = nil
+		for _, ks := range keep {
+			k, _ := strconv.Atoi(ks)
+			j.Calls = append(j.Calls, calls[k])
+		}
 	}
 	if j.Opts != 0 {
 		c := j
@@ -1304,12 +1376,21 @@ func cmdC03Fuzz(a cmdArgs) {
 				slow = true
 			}
 		}
-		if !slow {
+		wedged := false
+		for _, sg := range c03Sigs(&res) {
+			if sg.Kind == "wedged" {
+				wedged = true
+			}
+		}
+		if !slow && !wedged {
 			continue
 		}
 		confirmed++
 		j := jobs[i]
 		j.SlowMS = 60000
+		if wedged && !slow {
+			j.SlowMS = 20000 // a script that terminates by construction: 20 s alone on the machine is beyond doubt
+		}
 		rs, ds := c03RunBatch(tmp, fmt.Sprintf("slow%d", i), []c03Job{j})
 		if r2, ok := rs[j.ID]; ok {
 			results[i] = r2
@@ -1320,6 +1401,7 @@ func cmdC03Fuzz(a cmdArgs) {
 	// outcome distribution
 	outcomes := map[string]int{}
 	cyclic := map[string]int{} // what became of the scripts that render cyclic data
+	term := map[string]int{}   // what became of the scripts that terminate by construction (entry points and host calls)
 	optsSeen := map[string]int{}
 	callOutcomes := map[string]int{}
 	type found struct {
@@ -1343,7 +1425,9 @@ func cmdC03Fuzz(a cmdArgs) {
 		if res.Main.Outcome == "err" || res.Main.Outcome == "escape" {
 			key += " (" + res.Main.Stage + ")"
 		}
-		if res.Main.Outcome == "timeout" {
+		if res.Main.Outcome == "timeout" && j.MustTerminate {
+			key += ": WEDGED (the script terminates by construction)"
+		} else if res.Main.Outcome == "timeout" {
 			key += " in run: script did not terminate (excepted)"
 			excepted++
 		}
@@ -1351,13 +1435,21 @@ func cmdC03Fuzz(a cmdArgs) {
 		if strings.Contains(j.Class, "cyclic") {
 			cyclic[j.Class+" -> "+res.Main.Outcome+" "+res.Main.Stage]++
 		}
+		if j.MustTerminate {
+			term[j.Class+" "+j.Entry+" -> "+res.Main.Outcome+" "+res.Main.Stage]++
+		}
 		for k, c := range res.Calls {
 			ck := j.Calls[k].Kind + ": " + c.Outcome
-			if c.Outcome == "timeout" {
+			if c.Outcome == "timeout" && j.MustTerminate {
+				ck += ": WEDGED (the script terminates by construction)"
+			} else if c.Outcome == "timeout" {
 				ck += " (script did not terminate, excepted)"
 				excepted++
 			}
 			callOutcomes[ck]++
+			if j.MustTerminate {
+				term[j.Class+" "+j.Calls[k].Kind+" -> "+c.Outcome]++
+			}
 		}
 		for _, s := range c03Sigs(&res) {
 			gk := s.group()
@@ -1463,6 +1555,27 @@ func cmdC03Fuzz(a cmdArgs) {
 			shrunk[i] = shr{gk, f.job, false}
 			continue
 		}
+		if f.sig.Kind == "wedged" {
+			// every candidate in a child of its own with a 1.5 s watchdog (these scripts finish in milliseconds)
+			want := f.sig
+			j := c03ShrinkBy(tmp, 1000+i, f.job, func(c *c03Job, n int) bool {
+				c.ID, c.SlowMS = 0, 1500
+				rs, _ := c03RunBatch(tmp, fmt.Sprintf("sw%d_%d", i, n), []c03Job{*c})
+				r, ok := rs[0]
+				if !ok {
+					return false
+				}
+				for _, sg := range c03Sigs(&r) {
+					if sg.Kind == "wedged" && sg.Entry == want.Entry {
+						return true
+					}
+				}
+				return false
+			}, time.Now().Add(time.Duration(2*shrinkMS)*time.Millisecond))
+			j.SlowMS = 0
+			shrunk[i] = shr{gk, j, true}
+			continue
+		}
 		wg2.Add(1)
 		sem <- true
 		go func() {
@@ -1507,6 +1620,7 @@ func cmdC03Fuzz(a cmdArgs) {
 	}
 	st.Extra["outcomes"] = outcomes
 	st.Extra["cyclic_data_outcomes"] = cyclic
+	st.Extra["terminating_script_outcomes"] = term
 	st.Extra["call_outcomes"] = callOutcomes
 	st.Extra["options"] = optsSeen
 	st.Extra["excepted_non_terminating_scripts"] = excepted
